@@ -789,3 +789,169 @@ Example c08_fqz_vectors :
      182; 99; 194; 139; 205; 153; 201; 84; 224; 65; 7; 154; 173; 54; 58; 33; 173; 77; 86] = FErr /\
   (match fqz_encode [10; 10; 10]%nat s2 with Some b => fqz_decode b | None => FErr end) = FOk s2.
 Proof. vm_compute. repeat split. Qed.
+
+(* ================================================================================================ *)
+(* HOSTILE STREAMS (fifth round): the decoder models the correspondence check runs are the CAPPED    *)
+(* decoders NV.Cram.{Nx16Cap,AacCap,FqzCap,NamesCap}.  They are the decoders above with (i) every     *)
+(* split_off-type size compared with the remaining input BEFORE it is converted to a nat (as the      *)
+(* real code slices), (ii) every run length clamped before the conversion, (iii) every output size   *)
+(* (`vec![0; n]` in the real code) guarded by a cap: above it the model answers `Capped` = outside    *)
+(* the model (huge allocations are C15's alloc-codec-* class).  Extraction runs cap = 2^22; the       *)
+(* generators corrupt flag / size / count / context fields with every output size <= 2^20.            *)
+(* ================================================================================================ *)
+From NV Require Cram.Cap Cram.CapProofs Cram.Nx16Cap Cram.Nx16CapProofs Cram.Nx16CapRt Cram.AacCap
+  Cram.AacCapProofs Cram.AacCapRt Cram.FqzCap Cram.FqzCapProofs Cram.NamesCap Cram.NamesCapProofs.
+
+(* (i) the guarded split IS split_off, (ii) clamping before = clamping after the conversion *)
+Theorem c08_cap_split_guard_exact : forall bs n,
+  NV.Cram.Cap.split_off_n bs n = split_off bs (N.to_nat n).
+Proof. exact NV.Cram.CapProofs.split_off_n_eq. Qed.
+Print Assumptions c08_cap_split_guard_exact.
+
+Theorem c08_cap_clamp_exact : forall len k,
+  NV.Cram.Cap.min_n_nat len k = Nat.min (N.to_nat len) k.
+Proof. exact NV.Cram.CapProofs.min_n_nat_eq. Qed.
+Print Assumptions c08_cap_clamp_exact.
+
+(* (iii) REFINEMENT, every byte string, every caller size, every cap: the capped decoder answers
+   Capped or EXACTLY what the uncapped decoder of the theorems above answers *)
+Theorem c08_nx_decode_capped_refines : forall cap bs usize,
+  NV.Cram.CapProofs.refines (NV.Cram.Nx16Cap.nx_decode_sc cap bs usize) (nx_decode_s bs usize).
+Proof. exact NV.Cram.Nx16CapProofs.nx_decode_sc_refines. Qed.
+Print Assumptions c08_nx_decode_capped_refines.
+
+Theorem c08_aac_decode_capped_refines : forall cap bs usize,
+  NV.Cram.CapProofs.refines (NV.Cram.AacCap.aac_decode_rc cap bs usize) (aac_decode_r bs usize).
+Proof. exact NV.Cram.AacCapProofs.aac_decode_rc_refines. Qed.
+Print Assumptions c08_aac_decode_capped_refines.
+
+Theorem c08_fqz_decode_capped_refines : forall cap bs,
+  NV.Cram.CapProofs.refines (NV.Cram.FqzCap.fqz_decode_c cap bs) (fqz_decode bs).
+Proof. exact NV.Cram.FqzCapProofs.fqz_decode_c_refines. Qed.
+Print Assumptions c08_fqz_decode_capped_refines.
+
+Theorem c08_names_decode_capped_refines : forall cap bs,
+  NV.Cram.CapProofs.refines (NV.Cram.NamesCap.names_decode_c cap bs) (NV.Cram.Names.names_decode bs).
+Proof. exact NV.Cram.NamesCapProofs.names_decode_c_refines. Qed.
+Print Assumptions c08_names_decode_capped_refines.
+
+(* never-panics is unaffected: no byte string, caller size or cap makes a capped decoder panic *)
+Theorem c08_nx_decode_capped_never_panics : forall cap bs usize,
+  Forall (fun b => b < 256) bs ->
+  NV.Cram.Nx16Cap.nx_decode_sc cap bs usize <> NV.Cram.Cap.Within DPanic.
+Proof. exact NV.Cram.Nx16CapProofs.nx_decode_sc_never_panics. Qed.
+Print Assumptions c08_nx_decode_capped_never_panics.
+
+Theorem c08_aac_decode_capped_never_panics : forall cap bs usize,
+  Forall (fun b => b < 256) bs ->
+  NV.Cram.AacCap.aac_decode_rc cap bs usize <> NV.Cram.Cap.Within DPanic.
+Proof. exact NV.Cram.AacCapProofs.aac_decode_rc_never_panics. Qed.
+Print Assumptions c08_aac_decode_capped_never_panics.
+
+Theorem c08_fqz_decode_capped_never_panics : forall cap bs,
+  Forall (fun b => b < 256) bs -> NV.Cram.FqzCap.fqz_decode_c cap bs <> NV.Cram.Cap.Within FPanic.
+Proof. exact NV.Cram.FqzCapProofs.fqz_decode_c_never_panics. Qed.
+Print Assumptions c08_fqz_decode_capped_never_panics.
+
+Theorem c08_names_decode_capped_never_panics : forall cap bs,
+  Forall (fun b => b < 256) bs ->
+  NV.Cram.NamesCap.names_decode_c cap bs <> NV.Cram.Cap.Within NV.Cram.Names.NmPanic.
+Proof. exact NV.Cram.NamesCapProofs.names_decode_c_never_panics. Qed.
+Print Assumptions c08_names_decode_capped_never_panics.
+
+(* ROUND TRIP THROUGH THE CAPPED DECODERS, for EVERY cap that is at least the input length (added
+   premise: length src <= cap; everything else as in c08_nx_stripe_roundtrip / c08_aac_all_roundtrip /
+   c08_fqz_roundtrip): the answer is the input, never Capped -- every size the decoder converts on
+   the encoder's stream (declared size, packed length, literal count, STRIPE total and shares) is
+   at most the input length *)
+Theorem c08_nx_stripe_roundtrip_capped : forall cap f src,
+  Forall (fun b => b < 256) src -> N.of_nat (length src) < 268435456 ->
+  N.of_nat (length src) <= cap ->
+  exists bytes, nx_encode_s f src = NeOk bytes /\
+    NV.Cram.Nx16Cap.nx_decode_sc cap bytes (N.of_nat (length src)) = NV.Cram.Cap.Within (DOk src).
+Proof. exact NV.Cram.Nx16CapRt.nx_stripe_roundtrip_c. Qed.
+Print Assumptions c08_nx_stripe_roundtrip_capped.
+
+Theorem c08_aac_all_roundtrip_capped : forall cap f src,
+  f_stripe f = true \/ f_n32 f = false ->
+  Forall (fun b => b < 256) src -> N.of_nat (length src) < 268435456 ->
+  N.of_nat (length src) <= cap ->
+  exists bytes, aac_encode_r f src = AeOk bytes /\
+    NV.Cram.AacCap.aac_decode_rc cap bytes (N.of_nat (length src)) = NV.Cram.Cap.Within (DOk src).
+Proof. exact NV.Cram.AacCapRt.aac_all_roundtrip_c. Qed.
+Print Assumptions c08_aac_all_roundtrip_capped.
+
+Theorem c08_fqz_roundtrip_capped : forall cap lens src,
+  Forall (fun b => b < 256) src -> N.of_nat (length src) < 4294967296 ->
+  fold_right Nat.add 0%nat (filter (fun l => (0 <? l)%nat) lens) = length src ->
+  N.of_nat (length src) <= cap ->
+  exists bytes, fqz_encode lens src = Some bytes /\
+    NV.Cram.FqzCap.fqz_decode_c cap bytes = NV.Cram.Cap.Within (FOk src).
+Proof. exact NV.Cram.FqzCapProofs.fqz_roundtrip_c. Qed.
+Print Assumptions c08_fqz_roundtrip_capped.
+
+(* the name tokenizer through the capped decoder, any cap: the input, or Capped (PARTIAL: that
+   Capped is excluded for cap > the longest token byte stream is not proved -- the bound of the
+   streams by the input length is only known as `< 2^28' in NV.Cram.NamesRt) *)
+Definition c08_names_roundtrip_capped_full_statement : Prop := forall cap src,
+  NV.Cram.NamesRt.names_wf src -> 4 * N.of_nat (length src) + 16 <= cap ->
+  exists bytes, NV.Cram.Names.names_encode src = NV.Cram.Names.NmOk bytes /\
+    NV.Cram.NamesCap.names_decode_c cap bytes = NV.Cram.Cap.Within (NV.Cram.Names.NmOk src).
+
+Theorem c08_names_roundtrip_capped_partial : forall cap src,
+  NV.Cram.NamesRt.names_wf src ->
+  exists bytes, NV.Cram.Names.names_encode src = NV.Cram.Names.NmOk bytes /\
+    NV.Cram.CapProofs.refines (NV.Cram.NamesCap.names_decode_c cap bytes) (NV.Cram.Names.NmOk src).
+Proof. exact NV.Cram.NamesCapProofs.names_roundtrip_c_refines. Qed.
+Print Assumptions c08_names_roundtrip_capped_partial.
+
+(* a cap of 2^32 or more is never reached (every converted size is a uint7 value, < 2^32, a share
+   of the caller's size, or half of one): there the capped decoders ARE the uncapped ones, and the
+   name tokenizer round trip holds without the Capped alternative *)
+From NV Require Cram.CapTotal.
+
+Theorem c08_nx_decode_capped_total : forall cap bs usize,
+  4294967296 <= cap -> usize <= cap ->
+  NV.Cram.Nx16Cap.nx_decode_sc cap bs usize = NV.Cram.Cap.Within (nx_decode_s bs usize).
+Proof. exact NV.Cram.CapTotal.nx_decode_sc_total. Qed.
+Print Assumptions c08_nx_decode_capped_total.
+
+Theorem c08_aac_decode_capped_total : forall cap bs usize,
+  4294967296 <= cap -> usize <= cap ->
+  NV.Cram.AacCap.aac_decode_rc cap bs usize = NV.Cram.Cap.Within (aac_decode_r bs usize).
+Proof. exact NV.Cram.CapTotal.aac_decode_rc_total. Qed.
+Print Assumptions c08_aac_decode_capped_total.
+
+Theorem c08_fqz_decode_capped_total : forall cap bs,
+  4294967296 <= cap -> NV.Cram.FqzCap.fqz_decode_c cap bs = NV.Cram.Cap.Within (fqz_decode bs).
+Proof. exact NV.Cram.CapTotal.fqz_decode_c_total. Qed.
+Print Assumptions c08_fqz_decode_capped_total.
+
+Theorem c08_names_decode_capped_total : forall cap bs,
+  4294967296 <= cap ->
+  NV.Cram.NamesCap.names_decode_c cap bs = NV.Cram.Cap.Within (NV.Cram.Names.names_decode bs).
+Proof. exact NV.Cram.CapTotal.names_decode_c_total. Qed.
+Print Assumptions c08_names_decode_capped_total.
+
+Theorem c08_names_roundtrip_capped_large_cap : forall cap src,
+  4294967296 <= cap -> NV.Cram.NamesRt.names_wf src ->
+  exists bytes, NV.Cram.Names.names_encode src = NV.Cram.Names.NmOk bytes /\
+    NV.Cram.NamesCap.names_decode_c cap bytes = NV.Cram.Cap.Within (NV.Cram.Names.NmOk src).
+Proof. exact NV.Cram.CapTotal.names_roundtrip_c. Qed.
+Print Assumptions c08_names_roundtrip_capped_large_cap.
+
+(* the extracted instance (cap = 2^22) on hostile streams: a declared size of 2^32 - 1 with nothing
+   behind it is an error found WITHOUT converting the size (CAT payload / STRIPE sub-stream / RLE
+   meta-data shorter than declared), an output size above the cap is Capped, and a small hostile
+   size is decoded: PACK with one symbol and a declared size of 300 over an empty payload fills 300
+   bytes (the 2^20 version of this stream is a generated case) *)
+Example c08_capped_hostile_examples :
+  let u32max := [143; 255; 255; 255; 127] in
+  NV.Cram.Nx16Cap.nx_decode_s_capped (32 :: u32max ++ [1; 2; 3]) 0 = NV.Cram.Cap.Within DErr /\
+  NV.Cram.Nx16Cap.nx_decode_s_capped (8 :: [4; 4] ++ u32max ++ [0; 0; 0; 1]) 0 = NV.Cram.Cap.Within DErr /\
+  NV.Cram.Nx16Cap.nx_decode_s_capped (96 :: [5] ++ u32max ++ [5; 1; 2]) 0 = NV.Cram.Cap.Within DErr /\
+  NV.Cram.Nx16Cap.nx_decode_s_capped (0 :: u32max ++ [65; 0; 160; 0]) 0 = NV.Cram.Cap.Capped /\
+  NV.Cram.AacCap.aac_decode_r_capped (0 :: u32max ++ [2; 0; 0; 0; 0; 0]) 0 = NV.Cram.Cap.Capped /\
+  NV.Cram.FqzCap.fqz_decode_capped (u32max ++ [5; 0; 0; 0; 0; 3; 149; 127; 15; 0; 0; 0; 0; 0]) = NV.Cram.Cap.Capped /\
+  NV.Cram.Nx16Cap.nx_decode_s_capped [160; 130; 44; 1; 65; 0] 0 = NV.Cram.Cap.Within (DOk (repeat 65 300)).
+Proof. vm_compute. repeat split; reflexivity. Qed.
